@@ -189,7 +189,9 @@ Show(m, v, seen) ==
            [] o.k = "clo" -> "<fn " \o o.name \o " @ [MEMADDR]>"
            [] o.k = "inst" -> "<" \o ClassName(m, o.cls) \o " instance @ [MEMADDR]>"
            [] o.k = "class" -> "<class " \o o.name \o ">"
-           [] o.k = "bound" -> "<method " \o m.store[o.meth.v].name \o " on " \o Show(m, o.recv, seen) \o " @ [MEMADDR]>"
+           [] o.k = "bound" -> IF o.meth.k = "natm"
+                               THEN "<built-in method " \o (IF o.meth.v = "derives" THEN "derives" ELSE "new") \o " on " \o Show(m, o.recv, seen) \o " @ [MEMADDR]>"
+                               ELSE "<method " \o m.store[o.meth.v].name \o " on " \o Show(m, o.recv, seen) \o " @ [MEMADDR]>"
            [] o.k = "fiber" -> "<fiber @ [MEMADDR]>"
            [] o.k = "module" -> "<module \"" \o o.path \o "\">"
            [] o.k = "iter" -> (IF o.kind = "range" THEN "ObjRangeIter instance"
@@ -773,9 +775,8 @@ Micro(m) ==
          SetFrame(SetGlobal(m, Obj(m, vs[Len(vs) - 1]).path, it.a, Top(vs)), [fr1 EXCEPT !.vs = Append(PopN(vs, 2), Top(vs))])
       [] it.i = "get" ->
          LET o == Top(vs)
-             Bind(meth) == IF meth.k = "natm" THEN [Finish(m, FALSE, "OutOfModel", <<>>) EXCEPT !.oom = TRUE]   \* bound natives: not modelled
-                           ELSE LET m2 == Alloc(m1, BoundObj(o, meth)) IN
-                                SetFrame(m2, [fr1 EXCEPT !.vs = Append(Pop(vs), Ref(NewAddr(m1)))])
+             Bind(meth) == LET m2 == Alloc(m1, BoundObj(o, meth)) IN
+                           SetFrame(m2, [fr1 EXCEPT !.vs = Append(Pop(vs), Ref(NewAddr(m1)))])
          IN
          IF IsKind(m, o, "inst") /\ it.a \in DOMAIN Obj(m, o).fields THEN Replace(1, Obj(m, o).fields[it.a])
          ELSE IF IsKind(m, o, "inst") THEN
@@ -783,7 +784,8 @@ Micro(m) ==
               IF it.a \in DOMAIN ms THEN Bind(ms[it.a]) ELSE Fail(AttrErr(it.a))
          ELSE IF IsKind(m, o, "class") THEN
               (IF it.a \in Obj(m, o).statics THEN Bind(Obj(m, o).methods[it.a]) ELSE Fail(AttrErr(it.a)))
-         ELSE IF it.a \in NativeMethodNames THEN [Finish(m, FALSE, "OutOfModel", <<>>) EXCEPT !.oom = TRUE]   \* a bound built-in method
+         ELSE IF it.a = "derives" THEN Bind(NatM("derives"))                                                \* Object's method, bound
+         ELSE IF it.a \in NativeMethodNames THEN [Finish(m, FALSE, "OutOfModel", <<>>) EXCEPT !.oom = TRUE]   \* other bound built-in methods
          ELSE Fail(AttrErr(it.a))
       [] it.i = "setf" ->
          LET o == vs[Len(vs) - 1] v == Top(vs) IN
